@@ -68,7 +68,7 @@ class Runner:
         except self.exc.NodeOverrideError:
             ok = False
         except Exception:  # noqa
-            ok = None            # an unexpected exception: neither outcome matches, clauses fail
+            ok = None            # an unexpected exception: a refusal of the wrong type (clause C12.refusal-type)
         look = []
         for p in self.probes:
             try:
@@ -79,7 +79,7 @@ class Runner:
             except Exception:  # noqa
                 look.append([bits_of(p), [238, 4]])
         gone = len([h for h, body in before.items() if db.get(h) != body])
-        self.ev.append({"a": a, "k": bits_of(k), "v": list(unval(v)), "ok": bool(ok) if ok is not None else "crash",
+        self.ev.append({"a": a, "k": bits_of(k), "v": list(unval(v)), "ok": bool(ok), "crash": ok is None,
                         "st": {"root": decode(db, trie.root_hash), "look": look, "gone": gone}})
 
     def trace(self):
